@@ -616,7 +616,17 @@ func vfC18Run(run *vfkit.Run, cs *vfC18Case) {
 				}
 			}()
 			if pc.N == 0 {
-				time.Sleep(time.Duration(cs.K/2) * iv)
+				if useTLS {
+					// the first session lasts until two keepalives have been read inside TLS - or 10 s (2 000 intervals
+					// and more) if none comes: "none" is then a count over a generous window, not a guess about 25 ms
+					m0 := len(bytesOf(pc))
+					vfWaitUntil(10*time.Second, func() bool {
+						b := bytesOf(pc)
+						return len(b) >= m0 && strings.Count(b[m0:], "\n") >= 2
+					})
+				} else {
+					time.Sleep(time.Duration(cs.K/2) * iv)
+				}
 				pc.Close()
 				return
 			}
@@ -668,7 +678,7 @@ func vfC18Run(run *vfkit.Run, cs *vfC18Case) {
 		if useTLS && k0 == 0 && cs.K >= 8 {
 			// the first session lived K/2 intervals and then the *peer* closed it: no keepalive inside TLS at all means
 			// the keepalive went somewhere else (or the session died of it before the peer closed)
-			run.Violation("C18/no-keepalive-inside-tls", fmt.Sprintf("interval %v: the STARTTLS session lived %d intervals and the peer read no keepalive byte inside TLS; clear-text bytes after <proceed/>: %q", iv, cs.K/2, vfClip2(peer.Conns()[0].ClearBytes(), 60)), cs)
+			run.Violation("C18/no-keepalive-inside-tls", fmt.Sprintf("interval %v: the STARTTLS session was kept open for 10 s or until the peer had read two keepalive bytes inside TLS - it read none; clear-text bytes after <proceed/>: %q", iv, vfClip2(peer.Conns()[0].ClearBytes(), 60)), cs)
 			return
 		}
 		if cs.Variant == "in-handler" {
